@@ -3741,11 +3741,23 @@ class BaseParser:
     #
     # Subproc atom rules
     #
+    def _subproc_bang_args(self, p):
+        """The argument list a subprocess macro ``!`` appends to; a syntax
+        error if what precedes the ``!`` is not a command (e.g. ``*!w``)."""
+        last = p[2][-1]
+        if not hasattr(last, "elts"):
+            p3 = p[3]
+            self._set_error(
+                "subprocess macro '!' must follow a command",
+                self.currloc(p3.lineno, p3.lexpos),
+            )
+        return last.elts
+
     def _append_subproc_bang_empty(self, p):
         """Appends an empty string in subprocess mode to the argument list."""
         p3 = p[3]
         node = ast.const_str(s="", lineno=p3.lineno, col_offset=p3.lexpos + 1)
-        p[2][-1].elts.append(node)
+        self._subproc_bang_args(p).append(node)
 
     def _append_subproc_bang(self, p):
         """Appends the part between ! and the ) or ] in subprocess mode to the
@@ -3756,7 +3768,7 @@ class BaseParser:
         end = (p5.lineno, p5.lexpos)
         s = self._source_slice(beg, end).strip()
         node = ast.const_str(s=s, lineno=beg[0], col_offset=beg[1])
-        p[2][-1].elts.append(node)
+        self._subproc_bang_args(p).append(node)
 
     def p_subproc_atom_uncaptured(self, p):
         """subproc_atom : dollar_lbracket_tok subproc RBRACKET"""
